@@ -920,14 +920,377 @@ Proof.
 Qed.
 End Fields2.
 
+(* ---------------------------------------------------------------- message-typed fields *)
+(* Loop over a callback that unwraps the target, runs the Decode body and wraps the result again *)
+Lemma loop_wrap {V W} (g : @body W) (unwrap : V -> W) (wrap : W -> V) :
+  (forall w, unwrap (wrap w) = w) ->
+  let fn : @body V := fun c v => let '(c', w') := g c (unwrap v) in (c', wrap w') in
+  forall fuel c v, Dec.loop (S fuel) fn c v = let '(c', w') := Dec.loop (S fuel) g c (unwrap v) in (c', wrap w').
+Proof.
+  intros Huw fn.
+  assert (G : forall fuel c w, Dec.loop fuel fn c (wrap w) = let '(c', w') := Dec.loop fuel g c w in (c', wrap w')).
+  { induction fuel as [|fuel IH]; intros c w; [reflexivity|]. cbn [Dec.loop]. unfold fn at 1. rewrite Huw.
+    destruct (g c w) as [c1 w1]. destruct (negb (valid_number (pf c1))); [reflexivity|].
+    destruct (same_len (buf c1) (buf c)); apply IH. }
+  intros fuel c v. cbn [Dec.loop]. unfold fn at 1. destruct (g c (unwrap v)) as [c1 w1].
+  destruct (negb (valid_number (pf c1))); [reflexivity|]. destruct (same_len (buf c1) (buf c)); apply G.
+Qed.
+
+Lemma pop_state_same st inner : err inner = err st -> pop_state st inner = st.
+Proof. intros E. unfold pop_state. rewrite E. destruct st; reflexivity. Qed.
+
+Section MsgStep.
+Context {T V : Type}.
+Variable h : token -> T -> option T.
+Variables (F : nat) (B : nat).
+
+(* Message / PresentMessage on the pending field, given what the inner Loop computes on a payload *)
+Lemma dec_message_step st t field (fn : @body V) (v0 : V) (res : bytes -> option V) (put : V -> T) :
+  err st = None -> bytes_ok (buf st) -> pf st = field -> (blen st <= B)%nat ->
+  (forall b, bytes_ok b -> (length b <= B)%nat ->
+     let '(st', v') := Dec.loop F fn (push_state b st) v0 in
+     match res b with Some v'' => err st' = None /\ v' = v'' | None => err st' <> None end) ->
+  (forall tok, t_num tok = field -> h tok t =
+     match t_pay tok with PBytes b => match res b with Some v => Some (put v) | None => None end | _ => None end) ->
+  let '(st1, v1) := dec_message F field fn st v0 in step_ok h st t st1 (put v1).
+Proof.
+  intros He Hb Hpf HBl Hinner Hh. unfold dec_message. rewrite Hpf, Z.eqb_refl. cbn [negb].
+  destruct (Z.eqb_spec (pw st) BytesType) as [Ew|Ew]; cbn [negb].
+  - change BytesType with 2 in Ew. pose proof (consume_bytes_parse field (buf st) Hb) as Hc.
+    destruct (parse_value field 2 (buf st)) as [[p kk]|] eqn:Ep.
+    + destruct Hc as [b [-> [Ec [Hbb Hlb]]]]. rewrite Ec. replace (Z.of_nat kk <? 0) with false by (symmetry; apply Z.ltb_ge; lia).
+      specialize (Hinner b Hbb ltac:(unfold blen in HBl; lia)).
+      destruct (Dec.loop F fn (push_state b st) v0) as [inner' v'].
+      apply one_token_step; [exact He|exact Hb|]. rewrite Hpf, Ew, Ep. rewrite Hh by (cbn; exact Hpf). cbn [tok_of t_pay].
+      destruct (res b) as [v''|].
+      * destruct Hinner as [Hei ->]. rewrite pop_state_same by congruence. split; reflexivity.
+      * split; [apply next_field_err_sticky; cbn [pop_state err]; exact Hinner|apply bytes_ok_next_field; cbn [pop_state buf]; exact Hb].
+    + destruct (consume_bytes (buf st)) as [b n]. cbn [snd] in Hc. replace (n <? 0) with true by (symmetry; apply Z.ltb_lt; lia).
+      apply one_token_step; [exact He|exact Hb|]. rewrite Hpf, Ew, Ep. cbn. split; [discriminate|exact Hb].
+  - apply one_token_step; [exact He|exact Hb|].
+    destruct (parse_value (pf st) (pw st) (buf st)) as [[p kk]|] eqn:Ep; [|cbn; split; [discriminate|exact Hb]].
+    rewrite Hh by (cbn; exact Hpf). cbn [tok_of t_pay]. pose proof (parse_value_wire _ _ _ _ _ Ep) as Hw.
+    destruct p; try (cbn; split; [discriminate|exact Hb]). exfalso. apply Ew. exact Hw.
+Qed.
+End MsgStep.
+
+Lemma info_msg s f idx : f_custom f = CNone -> fty f = TMsg idx -> i_kind (field_info s f) = GMessage idx.
+Proof. intros Hc Ht. unfold field_info. rewrite Hc, Ht. reflexivity. Qed.
+
+Lemma nth_set_nth_other {A} (l : list A) i j x d : i <> j -> nth i (set_nth l j x) d = nth i l d.
+Proof. revert i j; induction l as [|a l IH]; intros [|i] [|j] H; cbn; auto; try congruence. Qed.
+
+Lemma clear_siblings_nth m f slot fs : nth slot (clear_siblings m f slot fs) (VInt 0) = nth slot fs (VInt 0).
+Proof.
+  unfold clear_siblings.
+  assert (Hs : forall sib, In sib (oneof_siblings m f slot) -> sib <> slot).
+  { unfold oneof_siblings. destruct (foneof f); [|intros ? []]. intros sib H. apply in_map_iff in H. destruct H as [p [<- Hp]].
+    apply filter_In in Hp. destruct Hp as [_ Hp]. apply andb_true_iff in Hp. destruct Hp as [Hp _]. apply negb_true_iff in Hp.
+    apply Nat.eqb_neq in Hp. exact Hp. }
+  revert fs. induction (oneof_siblings m f slot) as [|sib l IH]; intros fs; [reflexivity|]. cbn [fold_left].
+  rewrite IH by (intros x Hx; apply Hs; right; exact Hx). apply nth_set_nth_other. intros E. apply (Hs sib); [left; reflexivity|congruence].
+Qed.
+
+Lemma zero_agree s progs idx : gen_all s = GOk progs -> zero_msgv progs idx = zero_of s idx.
+Proof.
+  intros Hgen. unfold zero_msgv, zero_of. destruct (nth_error progs idx) as [p|] eqn:Ep.
+  - destruct (gen_all_nth s progs idx p Hgen Ep) as [m [Hm [_ Hz]]]. rewrite Hm, Hz. reflexivity.
+  - destruct (nth_error s idx) as [m|] eqn:Em; [|reflexivity]. destruct (gen_all_nth_s s progs idx m Hgen Em) as [p Hp]. congruence.
+Qed.
+
+Lemma hfield_msg s rrec m slot f idx tok t :
+  f_custom f = CNone -> fty f = TMsg idx -> i_repeated (field_info s f) = false ->
+  hfield s rrec m slot f tok t =
+  match t_pay tok with
+  | PBytes b =>
+      if i_pointer (field_info s f) then
+        match rrec idx b (match nth slot (fst t) (VInt 0) with VMsg (Some x) => x | _ => zero_of s idx end) with
+        | Some x => Some (set_nth (clear_siblings m f slot (fst t)) slot (VMsg (Some x)), snd t) | None => None end
+      else
+        match rrec idx b (match nth slot (fst t) (VInt 0) with VEmb fs1 u1 => (fs1, u1) | _ => zero_of s idx end) with
+        | Some x => Some (set_nth (clear_siblings m f slot (fst t)) slot (VEmb (fst x) (snd x)), snd t) | None => None end
+  | _ => None
+  end.
+Proof.
+  intros Hc Ht Hr. unfold hfield, apply_known. rewrite Hc, Ht, Hr.
+  destruct (t_pay tok); try reflexivity. destruct (i_pointer (field_info s f)).
+  - destruct (rrec idx b _); reflexivity.
+  - destruct (rrec idx b _); reflexivity.
+Qed.
+
+Section MsgFields.
+Variables (s : schema) (progs : list prog) (F' : nat).
+Let F := S F'.
+Variable rec : nat -> @body msgv.
+Variable rrec : nat -> bytes -> msgv -> option msgv.
+Variable m : mdesc.
+Variable h : token -> msgv -> option msgv.
+Variable B : nat.
+Hypothesis Hgen : gen_all s = GOk progs.
+Hypothesis Hrec : forall idx b st0 t, bytes_ok b -> (length b <= B)%nat -> err st0 = None ->
+  let '(st', t') := Dec.loop F (rec idx) (push_state b st0) t in
+  match rrec idx b t with Some t'' => err st' = None /\ t' = t'' | None => err st' <> None end.
+
+(* singular message fields: pointer (merge into the existing message or a fresh one), always-present, oneof member *)
+Lemma msg_field_ok idx slot f op :
+  f_custom f = CNone -> fty f = TMsg idx -> flabel f <> LRepeated ->
+  (foneof f <> None -> i_pointer (field_info s f) = true) ->
+  gen_field_decode s (oneof_siblings m f slot) slot f = GOk op ->
+  (forall tok t, t_num tok = fnum f -> h tok t = hfield s rrec m slot f tok t) ->
+  reader_ok h B (op_reader progs F rec op).
+Proof.
+  intros Hc Ht Hl Hop Hg Hh.
+  pose proof (info_not_repeated s f Hl) as Hrep. pose proof (info_oneof s f) as Hone.
+  assert (Hhs : forall tok t, t_num tok = fnum f -> h tok t = _) by (intros tok t E; rewrite (Hh tok t E); apply (hfield_msg s rrec m slot f idx tok t Hc Ht Hrep)).
+  clear Hh. unfold gen_field_decode in Hg. rewrite (info_msg s f idx Hc Ht), Hrep, Hone in Hg.
+  intros st t HB He Hb _ Hm. cbn [op_reader rmatch rrun] in *.
+  (* the two callbacks *)
+  assert (GP : forall (t0 : msgv), pf st = fnum f -> i_pointer (field_info s f) = true ->
+             nth slot (fst t0) (VInt 0) = nth slot (fst t) (VInt 0) -> snd t0 = snd t ->
+             fst t0 = clear_siblings m f slot (fst t) ->
+             let '(st1, t1) := (let '(st', v') := dec_message F (fnum f)
+                   (fun c (v : val) => let m0 := match v with VMsg (Some m0) => m0 | _ => zero_msgv progs idx end in
+                                       let '(c', m') := rec idx c m0 in (c', VMsg (Some m')))
+                   st (slot_get (fst t0) slot) in (st', set_slot t0 slot v')) in step_ok h st t st1 t1).
+  { intros t0 Hpf Hp Hn Hsn Hfs.
+    pose proof (dec_message_step h F B st t (fnum f)
+                  (fun c (v : val) => let m0 := match v with VMsg (Some m0) => m0 | _ => zero_msgv progs idx end in
+                                      let '(c', m') := rec idx c m0 in (c', VMsg (Some m')))
+                  (slot_get (fst t0) slot)
+                  (fun b => match rrec idx b (match slot_get (fst t0) slot with VMsg (Some x) => x | _ => zero_msgv progs idx end) with
+                            | Some x => Some (VMsg (Some x)) | None => None end)
+                  (fun v => set_slot t0 slot v) He Hb Hpf HB) as Hs.
+    destruct (dec_message F (fnum f) _ st (slot_get (fst t0) slot)) as [st1 v1]. apply Hs.
+    - intros b Hbb Hlb. unfold F.
+      rewrite (loop_wrap (rec idx) (fun v : val => match v with VMsg (Some m0) => m0 | _ => zero_msgv progs idx end) (fun w => VMsg (Some w)) ltac:(reflexivity) F').
+      specialize (Hrec idx b st (match slot_get (fst t0) slot with VMsg (Some x) => x | _ => zero_msgv progs idx end) Hbb Hlb He).
+      fold F. destruct (Dec.loop F (rec idx) (push_state b st) _) as [st' w']. destruct (rrec idx b _) as [x|]; [destruct Hrec as [E1 ->]; auto|exact Hrec].
+    - intros tok E. rewrite (Hhs tok t E). rewrite Hp. unfold slot_get. rewrite Hn, (zero_agree s progs idx Hgen).
+      destruct (t_pay tok); try reflexivity. destruct (rrec idx b _); [|reflexivity]. unfold set_slot. rewrite Hfs, Hsn. reflexivity. }
+  assert (GE : pf st = fnum f -> i_pointer (field_info s f) = false -> foneof f = None ->
+             let '(st1, t1) := (let '(st', v') := dec_message F (fnum f)
+                   (fun c (v : val) => let m0 := match v with VEmb fs u => (fs, u) | _ => zero_msgv progs idx end in
+                                       let '(c', m') := rec idx c m0 in (c', VEmb (fst m') (snd m')))
+                   st (slot_get (fst t) slot) in (st', set_slot t slot v')) in step_ok h st t st1 t1).
+  { intros Hpf Hp Hno.
+    pose proof (dec_message_step h F B st t (fnum f)
+                  (fun c (v : val) => let m0 := match v with VEmb fs u => (fs, u) | _ => zero_msgv progs idx end in
+                                      let '(c', m') := rec idx c m0 in (c', VEmb (fst m') (snd m')))
+                  (slot_get (fst t) slot)
+                  (fun b => match rrec idx b (match slot_get (fst t) slot with VEmb fs u => (fs, u) | _ => zero_msgv progs idx end) with
+                            | Some x => Some (VEmb (fst x) (snd x)) | None => None end)
+                  (fun v => set_slot t slot v) He Hb Hpf HB) as Hs.
+    destruct (dec_message F (fnum f) _ st (slot_get (fst t) slot)) as [st1 v1]. apply Hs.
+    - intros b Hbb Hlb. unfold F.
+      rewrite (loop_wrap (rec idx) (fun v : val => match v with VEmb fs u => (fs, u) | _ => zero_msgv progs idx end) (fun w => VEmb (fst w) (snd w))
+                 ltac:(intros [a c]; reflexivity) F').
+      specialize (Hrec idx b st (match slot_get (fst t) slot with VEmb fs u => (fs, u) | _ => zero_msgv progs idx end) Hbb Hlb He).
+      fold F. destruct (Dec.loop F (rec idx) (push_state b st) _) as [st' w']. destruct (rrec idx b _) as [x|]; [destruct Hrec as [E1 ->]; auto|exact Hrec].
+    - intros tok E. rewrite (Hhs tok t E). rewrite Hp. unfold slot_get. rewrite (zero_agree s progs idx Hgen), (clear_siblings_none m f slot (fst t) Hno).
+      destruct (t_pay tok); try reflexivity. destruct (rrec idx b _); reflexivity. }
+  destruct (foneof f) as [o|] eqn:Eo.
+  - (* oneof member: pointer *)
+    specialize (Hop ltac:(discriminate)). rewrite Hop in Hg. injection Hg as <-.
+    cbn [op_match] in Hm. unfold dec_op. cbn [op_match]. rewrite Hm. cbn [dec_op_run]. rewrite Hm. apply Z.eqb_eq in Hm.
+    rewrite clear_siblings_model.
+    apply (GP (clear_siblings m f slot (fst t), snd t) Hm Hop); cbn [fst snd]; [apply clear_siblings_nth|reflexivity|reflexivity].
+  - destruct (i_pointer (field_info s f)) eqn:Ep; injection Hg as <-;
+      cbn [op_match] in Hm; unfold dec_op; cbn [op_match]; rewrite Hm; cbn [dec_op_run]; apply Z.eqb_eq in Hm.
+    + destruct t as [fs un]. apply (GP (fs, un) Hm eq_refl); cbn [fst snd]; try reflexivity.
+      symmetry. apply clear_siblings_none. exact Eo.
+    + apply (GE Hm eq_refl eq_refl).
+Qed.
+End MsgFields.
+
+(* ---------------------------------------------------------------- greedy "for pending == num" loops that append to a slice *)
+Section Greedy.
+Variable h : token -> msgv -> option msgv.
+Variables (f : Z) (slot : nat) (B : nat).
+Variable elems : token -> option (list val).
+Variable R : nat -> dstate -> list val -> dstate * list val.
+Hypothesis Hf : valid_number f = true.
+Hypothesis Hh : forall tok t, t_num tok = f -> h tok t =
+  match elems tok with
+  | Some xs => Some (set_nth (fst t) slot (VList (as_list (nth slot (fst t) (VInt 0)) ++ xs)), snd t)
+  | None => None
+  end.
+Hypothesis R0 : forall st l, R 0 st l = (st, l).
+Hypothesis Rno : forall fuel st l, pf st <> f -> R fuel st l = (st, l).
+Hypothesis Riter : forall fuel st l, err st = None -> bytes_ok (buf st) -> (blen st <= B)%nat -> pf st = f ->
+  match parse_value f (pw st) (buf st) with
+  | None => err (fst (R (S fuel) st l)) <> None /\ bytes_ok (buf (fst (R (S fuel) st l)))
+  | Some (p, kk) =>
+      match elems (tok_of st p kk) with
+      | None => err (fst (R (S fuel) st l)) <> None /\ bytes_ok (buf (fst (R (S fuel) st l)))
+      | Some xs => R (S fuel) st l = R fuel (next_field (Z.of_nat kk) st) (l ++ xs)
+      end
+  end.
+
+Lemma greedy_loop fs un : forall fuel st vs tc, rep_inv slot fs tc vs -> err st = None -> bytes_ok (buf st) -> (blen st <= B)%nat -> pf st = f ->
+  let '(st', l) := R (S fuel) st vs in step_ok h st (tc, un) st' (set_nth fs slot (VList l), un).
+Proof.
+  induction fuel as [|fuel IH]; intros st vs tc Hinv He Hb HBl Hpf.
+  - pose proof (Riter 0 st vs He Hb HBl Hpf) as Hi.
+    destruct (R 1 st vs) as [st' l] eqn:Ed. apply one_token_step; [exact He|exact Hb|]. rewrite Hpf.
+    destruct (parse_value f (pw st) (buf st)) as [[p kk]|]; [|exact Hi].
+    rewrite Hh by (cbn; exact Hpf). destruct (elems (tok_of st p kk)) as [xs|]; [|exact Hi].
+    rewrite R0 in Hi. injection Hi as -> ->. cbn [fst snd]. split; [reflexivity|]. rewrite Hinv. reflexivity.
+  - pose proof (Riter (S fuel) st vs He Hb HBl Hpf) as Hi.
+    destruct (parse_value f (pw st) (buf st)) as [[p kk]|] eqn:Ep.
+    + destruct (elems (tok_of st p kk)) as [xs|] eqn:Ee.
+      * rewrite Hi. set (st1 := next_field (Z.of_nat kk) st). set (vs1 := vs ++ xs).
+        assert (S1 : step_ok h st (tc, un) st1 (set_nth fs slot (VList vs1), un)).
+        { apply one_token_step; [exact He|exact Hb|]. rewrite Hpf, Ep. rewrite Hh by (cbn; exact Hpf). rewrite Ee.
+          cbn [fst snd]. split; [reflexivity|]. rewrite Hinv. reflexivity. }
+        destruct (Z.eqb_spec (pf st1) f) as [E1|E1].
+        -- assert (Hv1 : pfv st1 = true) by (unfold pfv; rewrite E1; exact Hf).
+           assert (He1 : err st1 = None) by (unfold st1 in *; rewrite next_field_valid_err by exact Hv1; exact He).
+           assert (HB1 : (blen st1 <= B)%nat) by (pose proof (adv_weak _ _ (adv_next_field (Z.of_nat kk) st)); unfold st1; lia).
+           destruct S1 as [Hb1 S1'].
+           specialize (IH st1 vs1 (set_nth fs slot (VList vs1)) (rep_inv_next slot fs vs1) He1 Hb1 HB1 E1).
+           destruct (R (S fuel) st1 vs1) as [st2 l2].
+           apply (step_ok_trans h st (tc, un) st1 (set_nth fs slot (VList vs1), un) st2 (set_nth fs slot (VList l2), un) (conj Hb1 S1')).
+           ++ destruct IH as [Hb2 _]. exact Hb2.
+           ++ intros Hc. congruence.
+           ++ intros _ _. right. exact IH.
+           ++ intros _ Hc. congruence.
+        -- rewrite Rno by exact E1. exact S1.
+      * destruct (R (S (S fuel)) st vs) as [st' l]. apply one_token_step; [exact He|exact Hb|]. rewrite Hpf, Ep.
+        rewrite Hh by (cbn; exact Hpf). rewrite Ee. exact Hi.
+    + destruct (R (S (S fuel)) st vs) as [st' l]. apply one_token_step; [exact He|exact Hb|]. rewrite Hpf, Ep. exact Hi.
+Qed.
+End Greedy.
+
+Lemma repmsg_bytes_ok {T} f (fn : @body T) : forall fuel st l, bytes_ok (buf st) -> bytes_ok (buf (fst (dec_repeated_message fuel f fn st l))).
+Proof.
+  induction fuel as [|fuel IH]; intros st l Hb; [exact Hb|]. cbn [dec_repeated_message].
+  destruct (negb (f =? pf st)); [exact Hb|]. destruct (negb (pw st =? BytesType)); [exact Hb|].
+  destruct (consume_bytes (buf st)) as [msg n]. destruct (n <? 0); [exact Hb|].
+  destruct (fn (push_state msg st) l) as [inner' l']. apply IH. apply bytes_ok_next_field. exact Hb.
+Qed.
+
+Definition rep_msg_elems (s : schema) (rrec : nat -> bytes -> msgv -> option msgv) (idx : nat) (ptr : bool) (tok : token) : option (list val) :=
+  match t_pay tok with
+  | PBytes b => match rrec idx b (zero_of s idx) with
+                | Some x => Some [if ptr then VMsg (Some x) else VEmb (fst x) (snd x)]
+                | None => None
+                end
+  | _ => None
+  end.
+
+Lemma hfield_rep_msg s rrec m slot f idx tok t :
+  f_custom f = CNone -> fty f = TMsg idx -> i_repeated (field_info s f) = true -> foneof f = None ->
+  hfield s rrec m slot f tok t =
+  match rep_msg_elems s rrec idx (i_pointer (field_info s f)) tok with
+  | Some xs => Some (set_nth (fst t) slot (VList (as_list (nth slot (fst t) (VInt 0)) ++ xs)), snd t)
+  | None => None
+  end.
+Proof.
+  intros Hc Ht Hr Ho. unfold hfield, apply_known, rep_msg_elems. rewrite Hc, Ht, Hr, (clear_siblings_none m f slot (fst t) Ho).
+  destruct (t_pay tok); try reflexivity. destruct (rrec idx b (zero_of s idx)); reflexivity.
+Qed.
+
+Section RepMsgFields.
+Variables (s : schema) (progs : list prog) (F' : nat).
+Let F := S F'.
+Variable rec : nat -> @body msgv.
+Variable rrec : nat -> bytes -> msgv -> option msgv.
+Variable m : mdesc.
+Variable h : token -> msgv -> option msgv.
+Variable B : nat.
+Hypothesis Hgen : gen_all s = GOk progs.
+Hypothesis rec_sticky : forall idx, sticky_fn (rec idx).
+Hypothesis Hrec : forall idx b st0 t, bytes_ok b -> (length b <= B)%nat -> err st0 = None ->
+  let '(st', t') := Dec.loop F (rec idx) (push_state b st0) t in
+  match rrec idx b t with Some t'' => err st' = None /\ t' = t'' | None => err st' <> None end.
+
+Lemma repmsg_iter idx f (ptr : bool) fuel st l : valid_number f = true ->
+  let fn : dstate -> list val -> dstate * list val :=
+    fun c l0 => let '(c', m') := Dec.loop F (rec idx) c (zero_msgv progs idx) in
+                (c', l0 ++ [if ptr then VMsg (Some m') else VEmb (fst m') (snd m')]) in
+  err st = None -> bytes_ok (buf st) -> (blen st <= B)%nat -> pf st = f ->
+  match parse_value f (pw st) (buf st) with
+  | None => err (fst (dec_repeated_message (S fuel) f fn st l)) <> None /\ bytes_ok (buf (fst (dec_repeated_message (S fuel) f fn st l)))
+  | Some (p, kk) =>
+      match rep_msg_elems s rrec idx ptr (tok_of st p kk) with
+      | None => err (fst (dec_repeated_message (S fuel) f fn st l)) <> None /\ bytes_ok (buf (fst (dec_repeated_message (S fuel) f fn st l)))
+      | Some xs => dec_repeated_message (S fuel) f fn st l = dec_repeated_message fuel f fn (next_field (Z.of_nat kk) st) (l ++ xs)
+      end
+  end.
+Proof.
+  intros Hf fn He Hb HBl Hpf.
+  assert (Hfn : sticky_fn fn).
+  { intros c l0 Hec. unfold fn. pose proof (loop_sticky (rec idx) (rec_sticky idx) F c (zero_msgv progs idx) Hec) as H.
+    destruct (Dec.loop F (rec idx) c (zero_msgv progs idx)) as [c' m']. exact H. }
+  cbn [dec_repeated_message]. rewrite Hpf, Z.eqb_refl. cbn [negb]. unfold rep_msg_elems, tok_of. cbn [t_pay].
+  destruct (Z.eqb_spec (pw st) BytesType) as [Ew|Ew]; cbn [negb].
+  - change BytesType with 2 in Ew. rewrite Ew. pose proof (consume_bytes_parse f (buf st) Hb) as Hc.
+    destruct (parse_value f 2 (buf st)) as [[p kk]|] eqn:Ep.
+    + destruct Hc as [b [-> [Ec [Hbb Hlb]]]]. rewrite Ec. replace (Z.of_nat kk <? 0) with false by (symmetry; apply Z.ltb_ge; lia).
+      rewrite <- (zero_agree s progs idx Hgen).
+      specialize (Hrec idx b st (zero_msgv progs idx) Hbb ltac:(unfold blen in HBl; lia) He).
+      destruct (Dec.loop F (rec idx) (push_state b st) (zero_msgv progs idx)) as [c' m'] eqn:Eloop.
+      assert (Efn : fn (push_state b st) l = (c', l ++ [if ptr then VMsg (Some m') else VEmb (fst m') (snd m')])) by (unfold fn; rewrite Eloop; reflexivity).
+      rewrite Efn.
+      destruct (rrec idx b (zero_msgv progs idx)) as [x|].
+      * destruct Hrec as [Hec ->]. rewrite pop_state_same by congruence. reflexivity.
+      * split.
+        -- destruct (repmsg_facts f fn Hf fuel (next_field (Z.of_nat kk) (pop_state st c')) (l ++ [if ptr then VMsg (Some m') else VEmb (fst m') (snd m')])) as [_ [_ [I3 _]]].
+           apply I3; [exact Hfn|]. apply next_field_err_sticky. cbn [pop_state err]. exact Hrec.
+        -- apply repmsg_bytes_ok. apply bytes_ok_next_field. cbn [pop_state buf]. exact Hb.
+    + destruct (consume_bytes (buf st)) as [b n]. cbn [snd] in Hc. replace (n <? 0) with true by (symmetry; apply Z.ltb_lt; lia).
+      cbn. split; [discriminate|exact Hb].
+  - destruct (parse_value f (pw st) (buf st)) as [[p kk]|] eqn:Ep; [|cbn; split; [discriminate|exact Hb]].
+    pose proof (parse_value_wire _ _ _ _ _ Ep) as Hw. destruct p; try (cbn; split; [discriminate|exact Hb]). exfalso. apply Ew. exact Hw.
+Qed.
+
+(* repeated message fields (slices of pointers or of values) *)
+Lemma rep_msg_field_ok idx slot f op :
+  f_custom f = CNone -> fty f = TMsg idx -> flabel f = LRepeated -> foneof f = None -> valid_number (fnum f) = true ->
+  gen_field_decode s (oneof_siblings m f slot) slot f = GOk op ->
+  (forall tok t, t_num tok = fnum f -> h tok t = hfield s rrec m slot f tok t) ->
+  reader_ok h B (op_reader progs F rec op).
+Proof.
+  intros Hc Ht Hl Hno Hv Hg Hh.
+  assert (Hrep : i_repeated (field_info s f) = true) by (unfold field_info; rewrite Hl, Ht; reflexivity).
+  assert (Hone : i_oneof (field_info s f) = false) by (rewrite info_oneof, Hno; reflexivity).
+  assert (Hhs : forall tok t, t_num tok = fnum f -> h tok t = _) by (intros tok t E; rewrite (Hh tok t E); apply (hfield_rep_msg s rrec m slot f idx tok t Hc Ht Hrep Hno)).
+  clear Hh. unfold gen_field_decode in Hg. rewrite (info_msg s f idx Hc Ht), Hrep, Hone in Hg.
+  intros st t HB He Hb _ Hm. cbn [op_reader rmatch rrun] in *.
+  assert (G : forall ptr, ptr = i_pointer (field_info s f) -> pf st = fnum f ->
+            let fn : dstate -> list val -> dstate * list val :=
+              fun c l0 => let '(c', m') := Dec.loop F (rec idx) c (zero_msgv progs idx) in
+                          (c', l0 ++ [if ptr then VMsg (Some m') else VEmb (fst m') (snd m')]) in
+            let '(st1, t1) := (let '(st', l) := dec_repeated_message F (fnum f) fn st (as_list (slot_get (fst t) slot)) in (st', set_slot t slot (VList l))) in
+            step_ok h st t st1 t1).
+  { intros ptr Eptr Hpf fn.
+    pose proof (greedy_loop h (fnum f) slot B (rep_msg_elems s rrec idx ptr) (fun fuel st0 l0 => dec_repeated_message fuel (fnum f) fn st0 l0) Hv) as Hl'.
+    specialize (Hl' ltac:(intros tok t0 E; rewrite (Hhs tok t0 E), <- Eptr; reflexivity) ltac:(reflexivity)).
+    specialize (Hl' ltac:(intros fuel st0 l0 Hne; destruct fuel; [reflexivity|]; cbn [dec_repeated_message];
+                          replace (fnum f =? pf st0) with false by (symmetry; apply Z.eqb_neq; congruence); reflexivity)).
+    specialize (Hl' ltac:(intros fuel st0 l0 He0 Hb0 HB0 Hpf0; apply (repmsg_iter idx (fnum f) ptr fuel st0 l0 Hv He0 Hb0 HB0 Hpf0))).
+    specialize (Hl' (fst t) (snd t) F' st (as_list (slot_get (fst t) slot)) (fst t) ltac:(intros xs; reflexivity) He Hb HB Hpf).
+    cbv beta in Hl'. fold F in Hl'.
+    destruct (dec_repeated_message F (fnum f) fn st (as_list (slot_get (fst t) slot))) as [st' l]. destruct t as [fs un]. exact Hl'. }
+  destruct (i_pointer (field_info s f)) eqn:Ep; injection Hg as <-;
+    cbn [op_match] in Hm; unfold dec_op; cbn [op_match]; rewrite Hm; cbn [dec_op_run]; apply Z.eqb_eq in Hm.
+  - apply (G true eq_refl Hm).
+  - apply (G false eq_refl Hm).
+Qed.
+End RepMsgFields.
+
 (* ---------------------------------------------------------------- T_dec by induction on the nesting fuel *)
 Definition scalar_like (f : fdesc) : Prop := exists k, fty f = TScalar k \/ (fty f = TEnum /\ k = KInt32).
 
 (* the fields whose statements have a proved token contract *)
-Definition supported (f : fdesc) : Prop :=
-  f_custom f = CNone /\ scalar_like f /\ (flabel f <> LRepeated \/ foneof f = None).
+Definition supported (s : schema) (f : fdesc) : Prop :=
+  f_custom f = CNone /\
+  ((scalar_like f /\ (flabel f <> LRepeated \/ foneof f = None)) \/
+   (exists idx, fty f = TMsg idx /\
+      ((flabel f <> LRepeated /\ (foneof f <> None -> i_pointer (field_info s f) = true)) \/
+       (flabel f = LRepeated /\ foneof f = None)))).
 
-Definition supported_schema (s : schema) : Prop := forall m, In m s -> forall f, In f (mfields m) -> supported f.
+Definition supported_schema (s : schema) : Prop := forall m, In m s -> forall f, In f (mfields m) -> supported s f.
 
 Section TDecInd.
 Variables (s : schema) (progs : list prog) (F' : nat) (B : nat).
@@ -951,13 +1314,16 @@ Lemma field_contract fuel m : In m s -> (forall idx, msg_rel fuel idx) ->
   reader_ok (apply_token s (ref_decode fuel s) m) B (op_reader progs F (dec_msg fuel progs F) op).
 Proof.
   intros Hm IH slot f op Hin Hg Hh. pose proof (number_from_In _ _ _ Hin) as Hf.
-  destruct (Hsup m Hm f Hf) as [Hc [[k Hk] Hlab]].
   destruct (Hwf m Hm) as [_ Hv]. destruct (Hv f Hf) as [Hvn _].
-  destruct (flabel f) eqn:El.
-  - apply (scalar_like_ok s progs F' _ (ref_decode fuel s) m _ B k slot f op Hc Hk ltac:(rewrite El; discriminate) Hg Hh).
-  - apply (scalar_like_ok s progs F' _ (ref_decode fuel s) m _ B k slot f op Hc Hk ltac:(rewrite El; discriminate) Hg Hh).
-  - destruct Hlab as [Hl|Hno]; [congruence|].
-    apply (rep_scalar_ok s progs F' _ (ref_decode fuel s) m _ B k slot f op Hc Hk El Hno Hvn Hg Hh).
+  destruct (Hsup m Hm f Hf) as [Hc [[[k Hk] Hlab]|[midx [Hty Hlab]]]].
+  - destruct (flabel f) eqn:El.
+    + apply (scalar_like_ok s progs F' _ (ref_decode fuel s) m _ B k slot f op Hc Hk ltac:(rewrite El; discriminate) Hg Hh).
+    + apply (scalar_like_ok s progs F' _ (ref_decode fuel s) m _ B k slot f op Hc Hk ltac:(rewrite El; discriminate) Hg Hh).
+    + destruct Hlab as [Hl|Hno]; [congruence|].
+      apply (rep_scalar_ok s progs F' _ (ref_decode fuel s) m _ B k slot f op Hc Hk El Hno Hvn Hg Hh).
+  - destruct Hlab as [[Hl Hp]|[Hl Hno]].
+    + apply (msg_field_ok s progs F' _ (ref_decode fuel s) m _ B Hgen IH midx slot f op Hc Hty Hl Hp Hg Hh).
+    + apply (rep_msg_field_ok s progs F' _ (ref_decode fuel s) m _ B Hgen (dec_msg_sticky s progs F' Hgen Hwf fuel) IH midx slot f op Hc Hty Hl Hno Hvn Hg Hh).
 Qed.
 
 Theorem T_dec_msg : forall fuel idx, msg_rel fuel idx.
@@ -997,3 +1363,4 @@ Proof.
               (next_field 0 {| pf := 0; pw := 0; buf := data; err := None |}) t0) as [st' t'].
   exact H.
 Qed.
+
